@@ -40,20 +40,18 @@ def translate(ctx):
         if not os.path.exists(deps) or open(deps).read() != "Vmx\n":
             open(deps, "w").write("Vmx\n")
         want = set()
-        for r in tr:
-            if not r["ok"] or r["name"].startswith("x_"):
-                continue  # x_*: explored only, not needed in Coq
-            fn = "W_%s.v" % r["name"]
+        names = ["W_%s.v" % r["name"] for r in tr if r["ok"]] + ["All.v"]
+        for fn in names:
             want.add(fn)
             src = open(os.path.join(out, fn)).read()
             dst = os.path.join(GEN, fn)
             if not os.path.exists(dst) or open(dst).read() != src:
                 open(dst, "w").write(src)
-                changed.append(r["name"])
+                changed.append(fn)
             else:
                 kept += 1
         for f in os.listdir(GEN):
-            if f.startswith("W_") and f.endswith(".v") and f not in want:
+            if f.endswith(".v") and f not in want:
                 base = os.path.join(GEN, f[:-2])
                 for ext in (".v", ".vo", ".vok", ".vos", ".glob"):
                     if os.path.exists(base + ext):
@@ -131,3 +129,23 @@ def proof_times(make_out):
         old.update(t)
         json.dump(old, open(cache, "w"), indent=1)
     return {"measured_this_run": t, "last_measured": old}
+
+
+def libfunc_ap_cost(ctx, cone):
+    """Compiles Props/C17_libfuncs.v (per-libfunc ap / cost obligations cited by C17 and C04) and
+    returns a summary for the evidence file."""
+    pr = vlib.check_properties_file(ctx, os.path.join(vlib.COQ, "Props/C17_libfuncs.v"), cone)
+    log = pr.get("log", "")
+
+    def names(key):
+        m = re.search(key + r" =\s*\[(.*?)\]\s*:\s*list string", log, re.S)
+        if not m:
+            return []
+        return re.findall(r'"([^"]*)"', m.group(1))
+    cov, unc = names("covered_libfuncs"), names("uncovered_libfuncs")
+    gen = lambda l: sorted({x.split("<")[0] for x in l})
+    return {"ok": pr["ok"], "theorems": ["C17_libfunc_ap_exact", "C04_libfunc_steps_bound", "C04_libfunc_cost_bound"],
+            "statements_covered": len(cov), "statements_not_covered": len(unc),
+            "libfunc_instantiations_covered": len(set(cov)),
+            "generic_libfuncs_covered": gen(cov), "generic_libfuncs_not_covered": gen(unc),
+            "axioms": pr.get("axioms", [])}
